@@ -20,9 +20,9 @@
    bytes fed so far and not of how the source's Reads chunk them.  It is instantiated below
    by Armor.tk_step / tk_fin.
 
-   [dec_read0] is the pinned code; [dec_read] is the code with proposed-fixes/C10-*.diff (the
-   pipe's read side is closed when the base64 layer reports an error, which releases a producer
-   blocked in Write). *)
+   [dec_read0] is the code before /repo commit 0dac441 (proposed-fixes/C10-decoder-goroutine-leak-b64err.diff);
+   [dec_read] is the code since: the pipe's read side is closed when the base64 layer reports an
+   error, which releases a producer blocked in Write. *)
 From Coq Require Import List NArith Bool Arith.
 From Snow Require Import Lib.Wire Model.Base64 Model.Armor.
 Import ListNotations.
@@ -187,7 +187,7 @@ Section Stream.
               let e := match rerr with
                        | Some TEnd => match nbuf with [] => REOF | _ => RErr EBadBase64 (* io.ErrUnexpectedEOF *) end
                        | Some (TErr e) => RErr e
-                       | None => REOF
+                       | None => RErr EBadBase64   (* not reachable: every Read of the pipe brings a byte *)
                        end in
               (([], Some e), {| d_c := {| c_nbuf := nbuf; c_out := []; c_err := Some e; c_rerr := rerr |}; d_p := p' |})
             else
